@@ -7,7 +7,7 @@ CFG = dict(
                "merge_no_zero_sample), result passes CheckValid with ids 1..n (merge_valid), weights independent of input order "
                "(merge_perm), header rules (merge_headers, merge_period_max with its F25 _refuted twin, comments_dedup_is_union), "
                "the re-merge recursion stops after one extra pass (remerge_terminates), Compact returns a merge result unchanged, ids "
-               "and order included (compact_idempotent), the varint sample-key encoding is injective (sample_key_injective). The model is tied to /repo's Merge by comparing COMPLETE result dumps (ids and order "
+               "and order included (compact_idempotent), the varint sample-key encoding is injective (sample_key_injective), the per-source memo tables are pure memoisation (merge_memo_equiv). The model is tied to /repo's Merge by comparing COMPLETE result dumps (ids and order "
                "included) on 1.2k generated lists per quick run (60k thorough) and sampleKey byte for byte.",
     level_note="Identities never mention ids: frame = (binary = page-rounded size/offset/build-id-or-file, address - mapping start, "
                "[(function name, system name, file, start line), line, column] in inline order, folded). Not provable in an id model but evaluated on "
@@ -25,8 +25,8 @@ CFG = dict(
               "header rule / aliases or modifies its inputs / depends on input order / is not a fixed point of Compact",
     trusted_base=["Go harness generators, reflect-based pointer-reachability and before/after dumps of the inputs (aliasing and "
                   "mutation of inputs are observed on the Go side, not modelled)",
-                  "per-source id memo tables (locationsByID, functionsByID, mappingsByID) modelled as recomputation: equivalent for "
-                  "sources with unique ids (CheckValid)",
+                  "pointer identity of entities is represented by ids: faithful for sources with unique ids (CheckValid); the per-source "
+                  "id memo tables are transcribed in M_MergeMemo and proved not to change the result (merge_memo_equiv)",
                   "locationKey.lines (hex numbers joined by '|') modelled by the tuple of slots it encodes; sampleKey modelled as a tuple, "
                   "its varint byte encoding transcribed (skey_bytes), proved injective and compared with the real sampleKey byte for byte"],
     assumptions=["input profiles are valid (CheckValid) with unique ids; int64/uint64 fields are in range (Go types)",
